@@ -46,8 +46,8 @@ type World struct {
 	// constLenNames: callee name → constant length of its slice result (see funcConstLen)
 	constLenNames map[string]int64
 	globals       map[*ssa.Global]*globalBytes // see constfold.go
-	gWriters      map[*ssa.Global][]string      // see stateless.go
-	clobber       *clobberSummary               // see noclobber.go
+	gWriters      map[*ssa.Global][]string     // see stateless.go
+	clobber       *clobberSummary              // see noclobber.go
 	allSet        map[*ssa.Function]bool
 }
 
